@@ -517,6 +517,66 @@ def _make_world(seed, kind):
                 for j in range(4):
                     w.make_read(chrom, list(rd), truth={"class": "elongated-100-on-one-side-200-on-the-other"})
                 p += 2500 + 3000
+        # an isoform that contains the read and ends 400 bp after the read's polyA site, and one with three more (30-bp) introns that ends at
+        # the polyA site and begins 10 bp after the read does: how many isoforms are kept as candidates depends on how far the read sticks out of
+        # an isoform, on either side alike
+        for ci, chrom in enumerate(w.chrom_order[2:3]):
+            p = max([g.end for g in w.genes + thin if g.chrom == chrom] + [1000]) + 3000
+            for k, strand in enumerate("+-"):
+                if p + 6500 > w.chrom_len(chrom):
+                    break
+
+                def mx(lst):
+                    return list(lst) if strand == "+" else sorted((2 * p + 3000 - b, 2 * p + 3000 - a) for a, b in lst)
+                ta = mx([(p, p + 1100), (p + 2100, p + 3000)])
+                tb = mx([(p + 110, p + 300), (p + 331, p + 500), (p + 531, p + 700), (p + 731, p + 1100), (p + 2100, p + 2600)])
+                rd = mx([(p + 100, p + 1100), (p + 2100, p + 2600)])
+                g = Gene("XR%d_%d" % (ci + 1, k + 1), chrom, strand)
+                g.transcripts.append(Transcript(g.id + ".t1", g.id, chrom, strand, ta, True, "sticks-out-pair"))
+                g.transcripts.append(Transcript(g.id + ".t2", g.id, chrom, strand, tb, True, "sticks-out-pair"))
+                for t_ in g.transcripts:
+                    for intr in t_.introns:
+                        w.plant_sites(chrom, intr, strand)
+                w.genes.append(g)
+                for j in range(5):
+                    w.make_read(chrom, list(rd), truth={"class": "sticks-out-of-one-isoform-by-10"}, **({"polya": 30} if strand == "+" else {"polyt": 30, "flag": 16}))
+                p += 3000 + 3000
+        # an isoform with TWO 30-bp introns that error-free reads retain inside one exon (first, middle or last exon of the read)
+        for ci, chrom in enumerate(w.chrom_order[0:1]):
+            p = max([g.end for g in w.genes + thin if g.chrom == chrom] + [1000]) + 3000
+            for k, (strand, where) in enumerate((("+", 0), ("-", 2), ("+", 1), ("-", 0))):
+                if p + 7000 > w.chrom_len(chrom):
+                    break
+                blocks = [(p, p + 1000), (p + 2000, p + 3000), (p + 4000, p + 5000)]
+                a_, b_ = blocks[where]
+                split_ = [(a_, a_ + 200), (a_ + 231, a_ + 500), (a_ + 531, b_)]
+                iso = blocks[:where] + split_ + blocks[where + 1:]
+                g = Gene("MI2_%d_%d" % (ci + 1, k + 1), chrom, strand)
+                g.transcripts.append(Transcript(g.id + ".t1", g.id, chrom, strand, iso, True, "two-micro-introns-in-one-exon"))
+                for intr in g.transcripts[0].introns:
+                    w.plant_sites(chrom, intr, strand)
+                w.genes.append(g)
+                for j in range(5):
+                    w.make_read(chrom, list(blocks), truth={"class": "retains-two-micro-introns-in-one-exon"}, **({"polya": 30} if strand == "+" else {"polyt": 30, "flag": 16}))
+                p += 5000 + 3000
+        # genes without reads of their own next to a lone unspliced read: the read begins right after the last base of the gene (no common base),
+        # or shares exactly one base with it; the mirror image has these reads at the other end of the gene
+        for ci, chrom in enumerate(w.chrom_order[2:3]):
+            p = max([g.end for g in w.genes + thin if g.chrom == chrom] + [1000]) + 4000
+            for k, (strand, common) in enumerate((("+", 0), ("-", 0), ("+", 1), ("-", 1))):
+                if p + 6000 > w.chrom_len(chrom):
+                    break
+                ex = [(p, p + 300), (p + 1000, p + 1200), (p + 2000, p + 2500)]
+                g = Gene("ADJ%d_%d" % (ci + 1, k + 1), chrom, strand)
+                g.transcripts.append(Transcript(g.id + ".t1", g.id, chrom, strand, ex, True, "gene-without-reads"))
+                for intr in g.transcripts[0].introns:
+                    w.plant_sites(chrom, intr, strand)
+                w.genes.append(g)
+                if k % 2 == 0:
+                    w.make_read(chrom, [(p + 2501 - common, p + 3000)], truth={"class": "lone-read-%d-common-bases-with-the-gene" % common})
+                else:
+                    w.make_read(chrom, [(p - 500, p - 1 + common)], truth={"class": "lone-read-%d-common-bases-with-the-gene" % common})
+                p += 3000 + 4000
         # the zoo loci that contain no exact positional tie (they bring their own error-free reads)
         w.genes += thin
         world2.add_zoo(w, ("ambiguous_only", "contested", "intronic", "apa", "same_coords"))
